@@ -85,14 +85,19 @@ pub fn generate(name: &str, count: usize, rng: &mut Rng, out: &mut dyn Write) ->
         }
         // extreme value lengths
         "tlvbig" => {
+            // every declared length from 65531 to 65535 (and two mid-range ones), each with the value
+            // complete, one byte short, followed by another item, followed by stray bytes
+            let lens = [65535usize, 65534, 65533, 65532, 65531, 32768, 4096];
+            let start = rng.below(28) as usize;
             for i in 0..count {
-                let len = *rng.pick(&[65535usize, 65534, 32768, 4096]);
-                let mut sec = item(rng.next() as u8, len, rng.next() as u8);
-                match rng.below(4) {
-                    0 => { sec.pop(); }
-                    1 => { sec.extend(item(4, 0, 0)); }
-                    2 => { sec.extend_from_slice(&[1, 2]); }
-                    _ => {}
+                let k = (start + i * 5) % 28;
+                let len = lens[k % 7];
+                let mut sec = item(rng.next() as u8, len, rng.next() as u8 | 1);
+                match k / 7 {
+                    0 => {}
+                    1 => { sec.pop(); }
+                    2 => { sec.extend(item(4, 0, 0)); }
+                    _ => { sec.extend_from_slice(&[1, 2]); }
                 }
                 n += run_section(&format!("tlvbig-{}", i), &json!({"g": "tlvbig"}), &sec, out);
             }
